@@ -14,16 +14,20 @@ RULE = ("seeded generator: (pu) every string over a 4-letter alphabet up to leng
         "writers, readers, deadline/buffer setters, datagram arrivals on cur/prev/older sockets, read timeouts and Close at the same "
         "fake instant, scripted listen failures (incl. the constructor's), scripted socket faults (Close() of the previous / the current / "
         "both / every socket reporting an error while Close or a hop closes it; Set* calls reporting errors), a ReadFrom parked in its select "
-        "when Close comes, hop timers given time to fire after Close, a full receive queue, operations after Close. "
+        "when Close comes, hop timers given time to fire after Close, a full receive queue, operations after Close; overflow episodes "
+        "(the reader falls behind until packetQueueSize datagrams sit unread and more arrive on prev / cur and meet the full queue, with or "
+        "without a hop in between, then the reader drains the queue - completely or not - and further datagrams arrive on that same socket "
+        "and on the other one and must come out of ReadFrom in order; up to four episodes per history, also twice on one socket). "
         "Non-trivial = expression with >= 2 items or rejected; history with >= 2 successful hops or a failed listen. Distinct = distinct JSON case.")
 ASSUMPTIONS = [
     "net.ResolveIPAddr / net.SplitHostPort (host part of the hop address) are not modelled; the IP is an opaque value copied into every address",
     "the real timer and scheduler: hop instants and interleavings are inputs of the LTS (every interleaving of the code's locked sections and channel operations is covered by the theorems; the harness samples some)",
-    "sockets returned by ListenUDPFunc behave like net.PacketConn: ReadFrom fails once the socket is closed",
+    "sockets returned by ListenUDPFunc behave like net.PacketConn: ReadFrom fails once the socket is closed, and reports a permanent (non-timeout) error only then (hypothesis sockets_ok of C19_receiver_never_stops: a recvLoop returns on ANY permanent error of its socket)",
+    "a timeout error that meets a FULL receive queue parks its receiver in a blocking send; the model defers that send and the generator keeps read timeouts out of overflow episodes",
     "a socket whose Close() reports an error is closed nevertheless (as with close(2)); which sockets report one is an arbitrary input of the LTS",
 ]
 TRUSTED = ["modelled rather than verified: extras/utils/portunion.go, extras/transport/udphop/addr.go and conn.go (hand transcription in "
-           "coq/model/C19_PortUnion.v and C19_Hop.v; sort.Slice, strings.Split, strconv.ParseUint, rand.Intn, sync.RWMutex and channel "
+           "coq/model/C19_PortUnion.v, C19_Hop.v and C19_Recv.v (recvLoop goroutines); sort.Slice, strings.Split, strconv.ParseUint, rand.Intn, sync.RWMutex and channel "
            "semantics are modelled from their documentation)"]
 PER_SHARD = 125
 EXTRA_TARGETS = ["corr/C19_Corr.vo"]
@@ -159,13 +163,18 @@ def gen_ival(rng, n):
     return cases
 
 
+QUEUE = 1024   # packetQueueSize (only sizes the bursts: a wrong value makes the overflow class vacuous, see klass "ovf")
+
 HOP_PORTS = ["20000-20002,443", "443", "1000-1009", "0,65535", "5,3-4,7-6,100-90", "65530-65535,0-3"]
 
 
-def gen_hop_one(rng, big=False, full=False):
+def gen_hop_one(rng, big=False, full=False, ovf=False):
     ports = rng.choice(HOP_PORTS)
     z = rng.random()
-    if z < 0.7:
+    if ovf:
+        # hop instants under control: the timer fires exactly at the multiples of 5 s, or not at all (default 30 s)
+        mn = mx = rng.choice([5000, 5000, 0])
+    elif z < 0.7:
         mn = mx = 5000
     elif z < 0.9:
         mn, mx = 5000, rng.choice([5001, 6000, 9000])
@@ -229,11 +238,52 @@ def gen_hop_one(rng, big=False, full=False):
         ops = [o for o in ops if o["op"] not in ("read", "timeout", "close")]
         t0 = 2 * step + 10
         ops += [{"t": t0, "w": workers + 2, "op": "inject", "role": rng.choice(["cur", "prev"])} for _ in range(1030)]
+    if ovf:
+        # overflow episodes.  Nobody reads but the episode worker; no timeouts (a timeout error that meets a full queue
+        # parks its receiver in the send) and no early Close.  One episode, inside one window between two hop instants:
+        #   burst   the reader has fallen behind: >= packetQueueSize+1 datagrams on one socket (the last ones meet a full queue)
+        #   [hop]   optionally a hop in between (the socket that was cur is prev afterwards and still open)
+        #   drainq  the reader catches up (completely, or leaving a few)
+        #   burst   a few more datagrams on the SAME socket (and on the other one): they must be taken and queued
+        #   drainq  ... and come out of ReadFrom, in order
+        # optionally the whole thing twice in the same window (a second overflow of the same socket).
+        ops = [o for o in ops if o["op"] not in ("read", "timeout", "close")]
+        ew = workers + 2
+        wins = sorted(rng.sample(range(1, nhot + 1), rng.choice([1, 2, 2, 3]) if nhot >= 3 else 1))
+        left = 4
+        busy = []
+        for h in wins:
+            t0 = h * step + 300
+            busy.append((t0, t0 + 2000))
+            for rep in range(min(left, rng.choice([1, 1, 2]))):
+                left -= 1
+                between = rep == 0 and rng.random() < 0.4
+                role = "cur" if h == 1 or (between and rng.random() < 0.8) else rng.choice(["cur", "prev", "prev"])
+                ops.append({"t": t0, "w": ew, "op": "burst", "role": role, "v": QUEUE + rng.choice([1, 1, 2, 3, 8])})
+                after = role
+                if between:
+                    ops.append({"t": t0 + 100, "w": ew, "op": "hop"})
+                    after = "prev" if role == "cur" else "old"      # the same socket, under its new name
+                if rng.random() < 0.25:
+                    ops.append({"t": t0 + 150, "w": ew, "op": "snap"})
+                ops.append({"t": t0 + 200, "w": ew, "op": "drainq", "v": rng.choice([0, 0, 0, 1, 24, 500, QUEUE - 8, QUEUE - 1])})
+                other = "cur" if after != "cur" else "prev"
+                late = [after] * rng.randint(1, 4) + [other] * rng.randint(0, 2)
+                rng.shuffle(late)
+                for j, r in enumerate(late):
+                    ops.append({"t": t0 + 400 + j, "w": ew, "op": "inject", "role": r})
+                ops.append({"t": t0 + 600, "w": ew, "op": "drainq", "v": 0})
+                t0 += 1000
+        # nobody else injects at an instant of an episode: with the queue exactly full, "taken, then offered" racing a read makes
+        # the log's own account of what met a full queue ambiguous
+        ops = [o for o in ops if o["w"] == ew or o["op"] != "inject" or not any(a <= o["t"] <= b for a, b in busy)]
     ops.sort(key=lambda o: (o["t"]))
     nl = 2 * nhot + 4
     fail = sorted(set(rng.sample(range(1, nl), rng.choice([0, 0, 1, 2, nl // 2]))))
     if rng.random() < 0.04:
         fail = [0] + fail
+    if ovf and rng.random() < 0.7:
+        fail = []
     # socket faults.  Socket ids are creation ordinals and prev = cur - 1 whenever there is a prev, so the parity plans make
     # exactly one of the two sockets that Close has to close report an error; "all" makes both; "rand" mixes.
     nid = nl + 8
@@ -243,7 +293,7 @@ def gen_hop_one(rng, big=False, full=False):
     ps = rng.choice([0, 0, 0.2, 0.6])
     serr = [i for i in range(80) if rng.random() < ps]
     return {"k": "hop", "ports": ports, "min": mn * 10**6, "max": mx * 10**6, "seed": rng.randrange(2**31), "fail": fail,
-            "ops": ops, "end": end, "drain": full or rng.random() < 0.6, "workers": workers + 3,
+            "ops": ops, "end": end, "drain": full or ovf or rng.random() < 0.6, "workers": workers + 3,
             "cerr": cerr, "serr": serr, "blk": rng.random() < 0.5}
 
 
@@ -270,6 +320,7 @@ def gen(rng, tier):
     hops = [gen_hop_one(rng) for _ in range(90 * scale)]
     hops += [gen_hop_one(rng, big=True) for _ in range(3 * scale)]
     hops += [gen_hop_one(rng, full=True) for _ in range(2 * scale)]
+    hops += [gen_hop_one(rng, ovf=True) for _ in range(5 * scale)]
     h = gen_hop_one(rng)
     h["ports"] = "all"
     hops.append(h)
@@ -359,6 +410,10 @@ def ev_terms(c, o):
             terms.append("ESN %s %d%%nat %d%%nat %s %s %d%%nat" % (
                 "None" if e[1] < 0 else "(Some %d%%nat)" % e[1], max(e[2], 0), e[3], "true" if e[4] else "false",
                 "None" if e[5] < 0 else "(Some %d%%nat)" % e[5], e[6]))
+        elif k == "X":
+            terms.append("EX %d%%nat" % e[1])
+        elif k == "N":
+            terms.append("EN %d%%nat" % e[1])
         elif k == "HN":
             terms.append("EHN")
         elif k == "CL2":
@@ -366,7 +421,53 @@ def ev_terms(c, o):
         else:
             terms.append("ER 0%nat RPanic")
     r0 = prophecy(0) if log else 0
-    return r0, terms
+    return r0, compress(terms)
+
+
+def compress(terms):
+    """runs of consecutive arrivals on one socket (EA k p, EA k p+1, ...) and of consecutive read pairs (ERS rid, ER rid (RPkt p),
+    ERS rid+1, ER rid+1 (RPkt p+1), ...) become one EAs / ERs term: overflow histories hold thousands of them and the cases
+    file is parse-bound.  The acceptor expands them back into the very same records."""
+    import re
+    ra = re.compile(r"^EA (\d+)%nat (\d+)$")
+    rs = re.compile(r"^ERS (\d+)%nat$")
+    rr = re.compile(r"^ER (\d+)%nat \(RPkt (\d+)\)$")
+    out = []
+    i, n = 0, len(terms)
+    while i < n:
+        m = ra.match(terms[i])
+        if m:
+            k, p = int(m.group(1)), int(m.group(2))
+            j = i + 1
+            while j < n:
+                m2 = ra.match(terms[j])
+                if not (m2 and int(m2.group(1)) == k and int(m2.group(2)) == p + (j - i)):
+                    break
+                j += 1
+            if j - i >= 4:
+                out.append("EAs %d%%nat %d %d%%nat" % (k, p, j - i))
+                i = j
+                continue
+        m = rs.match(terms[i])
+        if m and i + 1 < n:
+            m1 = rr.match(terms[i + 1])
+            if m1 and m1.group(1) == m.group(1):
+                rid, p = int(m.group(1)), int(m1.group(2))
+                cnt = 1
+                j = i + 2
+                while j + 1 < n:
+                    a, b = rs.match(terms[j]), rr.match(terms[j + 1])
+                    if not (a and b and int(a.group(1)) == rid + cnt and int(b.group(1)) == rid + cnt and int(b.group(2)) == p + cnt):
+                        break
+                    cnt += 1
+                    j += 2
+                if cnt >= 3:
+                    out.append("ERs %d%%nat %d %d%%nat" % (rid, p, cnt))
+                    i = j
+                    continue
+        out.append(terms[i])
+        i += 1
+    return out
 
 
 def to_coq(c, o):
@@ -393,6 +494,33 @@ def to_coq(c, o):
         return "CHop %s %s %d%%nat %s [%s] %s" % (common.coq_bytes(c["ports"].encode()), "true" if ctor_ok else "false", r0, cerrs,
                                                  ";\n  ".join(terms), census)
     return None
+
+
+def ovf_features(c, o):
+    """overflow episodes that really took place, judged on the log alone: (episodes, late) where an episode = the queue was
+    full when a datagram was taken, and late = datagrams taken from a socket AFTER an overflow on that very socket and after
+    the queue had room again (the arrivals that show the receiver survived the overflow)."""
+    log = o.get("log") or []
+    q, episodes, late = 0, 0, 0
+    infull = False
+    hit = set()
+    for e in log:
+        if e[0] == "A":
+            if q < QUEUE:
+                q += 1
+                if e[1] in hit:
+                    late += 1
+                infull = False
+            else:
+                hit.add(e[1])
+                if not infull:
+                    episodes += 1
+                infull = True
+        elif e[0] == "T" and q < QUEUE:
+            q += 1
+        elif e[0] == "R" and e[1] in ("pkt", "timeout"):
+            q -= 1
+    return episodes, late
 
 
 def hop_features(o):
@@ -438,8 +566,10 @@ def klass(c, o):
     if o.get("ctor_err"):
         return "hop:ctor-failed"
     okh, failed, ap = hop_features(o)
-    return "hop:hops%s:fail%s:prevarr%s:closefault-%s" % ("<2" if okh < 2 else "2-5" if okh <= 5 else ">5", "0" if failed == 0 else "+",
-                                                        "0" if ap == 0 else "+", close_faults(o))
+    ep, late = ovf_features(c, o)
+    ovf = "" if ep == 0 else ":ovf%s-late%s" % ("1" if ep == 1 else "+", "0" if late == 0 else "+")
+    return "hop:hops%s:fail%s:prevarr%s:closefault-%s%s" % ("<2" if okh < 2 else "2-5" if okh <= 5 else ">5", "0" if failed == 0 else "+",
+                                                          "0" if ap == 0 else "+", close_faults(o), ovf)
 
 
 def nontrivial(c, o):
